@@ -79,6 +79,8 @@ def corr_phase(prop, spec, tier, seed, res, budget_scale=1):
         pairs = corr.run_pair(part["domain"], [c for _, c in cases], harness_extra=part.get("harness_extra"),
                               timeout=part.get("timeout", 600), jobs=part.get("jobs", 8), chunk=part.get("chunk", 64))
         for (origin, lines), (impl, model) in zip(cases, pairs):
+            if hasattr(dom, "normalize"):
+                impl, model = dom.normalize(lines, impl, model)
             if impl is not None and len(impl) > 4000:
                 stats["oversize_skipped"] = stats.get("oversize_skipped", 0) + 1
                 continue
@@ -113,6 +115,8 @@ def shrink_divergence(prop, dv, want_property_failure):
     dom = importlib.import_module("checklib.domains." + part["domain_module"])
     def still(cand):
         (impl, model), = corr.run_pair(part["domain"], [cand], harness_extra=part.get("harness_extra"), timeout=60, jobs=2)
+        if hasattr(dom, "normalize"):
+            impl, model = dom.normalize(cand, impl, model)
         if corr.first_diff(impl, model) is None:
             return False
         if want_property_failure:
@@ -120,6 +124,8 @@ def shrink_divergence(prop, dv, want_property_failure):
         return True
     small = corr.shrink(part["domain"], dv["lines"], still, protect=getattr(dom, "protect", lambda l: False))
     (impl, model), = corr.run_pair(part["domain"], [small], harness_extra=part.get("harness_extra"), timeout=60, jobs=2)
+    if hasattr(dom, "normalize"):
+        impl, model = dom.normalize(small, impl, model)
     return dict(dv, lines=small, impl=impl, model=model, at=corr.first_diff(impl, model))
 
 def matches_known(prop, dv, why, known):
